@@ -88,6 +88,9 @@ def env_fault(rng, fam, params, kinds=None):
     kinds = kinds or ["clock", "arpack", "rng", "stderr", "linalg"]
     if "clock" in kinds and fam == "voronoi" and rng.random() < 0.8:
         env["clock"] = clock_fault(rng, int(params.get("n_trial_calculation", 4) or 4))
+    if "arpack" in kinds and fam == "cur" and rng.random() < 0.08:
+        # the truncated SVD of CUR does not converge (no start vector to vary: it is seeded)
+        env["arpack"] = {"mode": "dense", "seed": _seed(rng), "fail_at": rng.randint(1, 4)}
     if "arpack" in kinds and fam == "pcovcur" and rng.random() < 0.7:
         env["arpack"] = {"mode": rng.choice(["dense", "sparse", "orth", "same"]), "seed": _seed(rng)}
         if rng.random() < 0.08:
@@ -362,8 +365,15 @@ def gen_c06(rng, idx, tier, faults):
     if rng.random() < 0.15:
         xs["storage"] = rng.choice(["F", "view", "readonly"])  # the caller's memory layout
     long_run = rng.random() < 0.1
+    very_long = False
     if long_run:
         xs["shape"][0] = rng.randint(70, 140)  # long searches (counters, thresholds on the number of updates)
+        if rng.random() < 0.12:
+            # ... and a few searches that go past 256 selections (counters, labels and work
+            # arrays sized or typed from the first request)
+            very_long = True
+            xs["shape"][0] = rng.randint(262, 330)
+            xs["shape"][1] = min(xs["shape"][1], 3)
     if rng.random() < 0.25:
         xs["scale_pow2"] = rng.choice([-30, -24, -20, -12, 10, 20])
     heap["X0"] = xs
@@ -379,7 +389,7 @@ def gen_c06(rng, idx, tier, faults):
         yn = "y0"
         heap["y0"] = gen_y(rng, n_from)
     cap = n_from
-    N = rng.randint(1, cap)
+    N = rng.randint(1, cap) if not very_long else rng.randint(2, 200)
     p = gen_params(rng, "sample.VoronoiFPS", xs["shape"], N, "C06", faults)
     p.pop("progress_bar", None)
     if isinstance(p.get("initialize"), int) and rng.random() < 0.12:
@@ -396,6 +406,8 @@ def gen_c06(rng, idx, tier, faults):
         if sched[-1] >= cap:
             break
         sched.append(rng.randint(sched[-1] + 1, cap))
+    if very_long and sched[-1] <= 256:
+        sched.append(rng.randint(258, cap))
     calibrated = "full_fraction" not in p
     nt = int(p.get("n_trial_calculation", 4))
     all128 = faults and calibrated and idx % (25 if tier == "thorough" else 100) == 0
@@ -656,7 +668,19 @@ def gen_c08(rng, idx, tier, faults):
             seq = [{"op": "MUTATE", "h": xn, "recipe": rec}] + seq
         mk_env = (lambda: env_fault(rng, fam, p, ["clock", "arpack", "rng"])) if faults else (lambda: quiet_env(rng, fam))
         moved = False
+        second_cold = (
+            rng.random() < 0.1
+            # (a generator INSTANCE legitimately advances from fit to fit; a timing-calibrated
+            # VoronoiFPS may refuse its second cold fit - the known zero-calibration finding)
+            and not (isinstance(q.get("random_state"), dict) and "$rs" in q["random_state"])
+            and not (fam == "voronoi" and "full_fraction" not in q)
+        )
         for si, s in enumerate(sched):
+            if si == 1 and second_cold:
+                # the object is cold-fitted a second time (same parameters, same data) before the
+                # chain goes on: a fresh start must not remember the first one (generators stored
+                # on the estimator, sticky fall-back flags ...)
+                seq.append({"op": "FIT", "obj": name, "X": xn, "y": yn, "warm": False, "env": mk_env()})
             if si > 0:
                 seq.append({"op": "SET", "obj": name, "params": {"n_to_select": n_form(rng, s, n_from)}})
                 r = rng.random()
